@@ -81,7 +81,7 @@ def expr_text(e, facts):
             return '%s instance of attribute(*, %s)' % (f['path'], t)
         if e.get('wrong') and not f.get('nil') and G.TYPES[f['type']][1] not in ('lex', 'union', 'intlist'):
             # a type that is not in the chain: false, with or without an occurrence indicator
-            return '%s instance of element(*, xs:date%s)' % (f['path'], '?' if e['wrong'] == 2 else '')
+            return '%s instance of element(*, xs:date)%s' % (f['path'], '?' if e['wrong'] == 2 else '')
         return '%s instance of element(*, %s%s)' % (f['path'], t, '?' if f.get('nil') else '')
     kind = G.TYPES[f['type']][1]
     if kind in ('int', 'Decimal', 'float'):
@@ -344,7 +344,7 @@ def run_case(case, world):
                             'data() of %s (type %s) has classes %r' % (f['path'], G.TYPES[tkey][0],
                                                                         [type(x).__name__ for x in items]), feats + extra)
         if sk == 'A' and built[0] and e['kind'] == 'instance' and cfg['facts'] and outcome[0] == 'ok' and ref == outcome \
-                and e.get('wrong') and (text.endswith('element(*, xs:date)') or text.endswith('element(*, xs:date?)')) \
+                and e.get('wrong') and (text.endswith('element(*, xs:date)') or text.endswith('element(*, xs:date)?')) \
                 and G.TYPES[cfg['facts'][e['fact'] % len(cfg['facts'])]['type']][1] not in ('lex', 'union', 'intlist'):
             if outcome[1] not in (['bool', False], [['bool', False]]):
                 f = cfg['facts'][e['fact'] % len(cfg['facts'])]
